@@ -222,6 +222,20 @@ def run(ctx):
             for _ in range(5 if thorough else 3):
                 opts = draw_opts(rng, counts, thorough)
                 jobs.append(pipeline.Job("gen%d" % i, sc.cfg(None, opts), p, lang, {"opts": opts, "kind": "gen", "text": txt}))
+        # the namespace / brace family of can_increase_nl(): nested namespaces whose closing braces follow each other
+        for i in range(10 if thorough else 3):
+            k = rng.randrange(100)
+            txt = inject_blank_lines(rng, (NESTED % {"k": k}) + "namespace tail%d {\nnamespace in%d {\nvoid f%d() {\n}\n}\n}\n" % (k, k, k), 0.6)
+            p = sc.write(txt, ".cpp")
+            for _ in range(6 if thorough else 4):
+                n = rng.choice([2, 3, 4])
+                opts = {"nl_max": n, "eat_blanks_before_close_brace": rng.choice(["true", "true", "false"]),
+                        "eat_blanks_after_open_brace": rng.choice(["true", "false"]),
+                        "nl_before_namespace": rng.randrange(0, n + 1), "nl_after_namespace": rng.randrange(0, n + 1),
+                        "nl_inside_namespace": rng.choice([0, 0, 1]), "nl_inside_empty_func": rng.choice([0, 0, 1]),
+                        "nl_start_of_file": "ignore", "nl_end_of_file": rng.choice(["ignore", "force"]),
+                        "nl_start_of_file_min": 0, "nl_end_of_file_min": 1}
+                jobs.append(pipeline.Job("ns%d" % i, sc.cfg(None, opts), p, "CPP", {"opts": opts, "kind": "gen", "text": txt}))
         pairs = [p for p in unc.test_pairs() if os.path.getsize(p[2]) < 30000]
         rng.shuffle(pairs)
         npairs = 0
